@@ -793,11 +793,11 @@ func (se *specEnv) call(n *ast.CallExpr) specVal {
 			if !ok {
 				se.fail("istype on non-interface")
 			}
-			tv := se.eval(n.Args[1])
-			if tv.T == nil {
-				se.fail("istype: second argument must be a type")
+			tt := se.resolveType(exprString(n.Args[1]))
+			if tt == nil {
+				se.fail("istype: unknown type %s", exprString(n.Args[1]))
 			}
-			return specVal{V: Eq(iv.Tag, IntLit(int64(se.x.e.tagOf(tv.T)))), T: boolT}
+			return specVal{V: Eq(iv.Tag, IntLit(int64(se.x.e.tagOf(tt)))), T: boolT}
 		case "uint64", "int", "uint32", "uint8", "int64", "uint16", "int32", "byte":
 			a := se.eval(n.Args[0])
 			return specVal{V: se.rval(a), T: types.Universe.Lookup(id.Name).Type()}
@@ -815,7 +815,22 @@ func (se *specEnv) call(n *ast.CallExpr) specVal {
 					if p, isP := v.(*PtrV); isP {
 						t = se.x.ptrTerm(p)
 					} else {
-						se.fail("ghost func %s: argument %d is composite", gf.Name, i)
+						// composite argument: all its leaves
+						sv := se.eval(a)
+						var leaves []Term
+						func() {
+							defer func() {
+								if r := recover(); r != nil {
+									se.fail("ghost func %s: argument %d is composite and cannot be flattened", gf.Name, i)
+								}
+							}()
+							leaves = flattenVal(v, sv.T)
+						}()
+						for _, l := range leaves {
+							args = append(args, l)
+							sorts = append(sorts, l.Sort)
+						}
+						continue
 					}
 				}
 				args = append(args, t)
